@@ -639,6 +639,84 @@ theorem C13_scanline_pnm_text {α} (f : PixFmt α) (data : Bytes) (info : PnmInf
 
 example : (pnmReadText rgb8 [49, 32, 50, 32, 51, 10, 52, 32, 53, 32, 54, 10] ⟨3, 1, 2, 255⟩ Settings.full).rows = [[⟨1, 2, 3⟩], [⟨4, 5, 6⟩]] := by decide
 
+/-! ### every row the iterator hands out, under any pattern, is that row of read_image -/
+
+/-- binary PNM (P5 / P6): whatever the sequence of `*it` / `++it`, a row handed out at a position inside the image decodes to read_image's row -/
+theorem C13_skip_rows_read_image_pnm_bin {α} (f : PixFmt α) (data : Bytes) (info : PnmInfo) (ops : List ItOp) :
+    ∀ x ∈ itRun (pnmBinScanReader (pnmScanline info.type info.width)) (ItState.init [] data) ops, x.1 < info.height →
+      (pnmReadBin f data info Settings.full).rows[x.1]? = some (decRow f info.width x.2) := by
+  intro x hx hlt
+  rw [C13_skip_pattern_pnm_bin, List.mem_map] at hx
+  obtain ⟨p, _, rfl⟩ := hx
+  exact C13_scanline_pnm f data info p hlt
+
+/-- ascii PNM (P1 / P2 / P3) -/
+theorem C13_skip_rows_read_image_pnm_text {α} (f : PixFmt α) (data : Bytes) (info : PnmInfo) (ops : List ItOp) :
+    ∀ x ∈ itRun (pnmTextScanReader info.maxValue (pnmScanline info.type info.width)) (ItState.init [] data) ops, x.1 < info.height →
+      (pnmReadText f data info Settings.full).rows[x.1]? = some (decRow f info.width x.2) := by
+  intro x hx hlt
+  rw [C13_skip_pattern_pnm_text_rows, List.mem_map] at hx
+  obtain ⟨p, _, rfl⟩ := hx
+  exact C13_scanline_pnm_text f data info p hlt
+
+/-- BMP 24 / 32 bit -/
+theorem C13_skip_rows_read_image_bmp {α} (f : PixFmt α) (file : Bytes) (info : BmpInfo) (p0 : Nat) (ops : List ItOp) :
+    ∀ x ∈ itRun (bmpScanReader file info) (ItState.init [] p0) ops, x.1 < info.height.toNat →
+      (bmpReadData f file info Settings.full).rows[x.1]? = some (decRow f info.width.toNat x.2) := by
+  intro x hx hlt
+  rw [C13_skip_pattern_bmp, List.mem_map] at hx
+  obtain ⟨p, _, rfl⟩ := hx
+  exact C13_scanline_bmp f file info p hlt
+
+/-- TARGA raw, bottom-up -/
+theorem C13_skip_rows_read_image_targa {α} (f : PixFmt α) (file : Bytes) (info : TgaInfo) (p0 : Nat) (ops : List ItOp)
+    (hb : info.originBit = false) :
+    ∀ x ∈ itRun (tgaScanReader file info) (ItState.init [] p0) ops, x.1 < info.height →
+      (tgaReadRaw f file info Settings.full).rows[x.1]? = some (decRow f info.width x.2) := by
+  intro x hx hlt
+  rw [C13_skip_pattern_targa, List.mem_map] at hx
+  obtain ⟨p, _, rfl⟩ := hx
+  exact C13_scanline_targa f file info p hlt hb
+
+/-- the harness's pattern letters never move the iterator past the number of letters: `it == end()` after exactly `height` letters -/
+theorem C13_pattern_pos {σ ρ} (r : ScanReader σ ρ) (pat : List Char) (s : ItState σ ρ) :
+    itPos r s (patternOps pat) = s.pos + pat.length := by
+  rw [C13_skip_pattern_pos]
+  congr 1
+  induction pat with
+  | nil => rfl
+  | cons c cs ih =>
+    by_cases h1 : c = 'd'
+    · subst h1; simp [patternOps, ih]
+    · by_cases h2 : c = 'D'
+      · subst h2; simp [patternOps, ih]
+      · have : patternOps (c :: cs) = .incr :: patternOps cs := patternOps.eq_4 c cs (fun h => h1 h) (fun h => h2 h)
+        rw [this]; simp [ih]
+
+example : ∃ x ∈ itRun (pnmTextScanReader 255 3) (ItState.init [] [49, 32, 50, 32, 51, 10, 52, 32, 53, 32, 54, 10]) [.incr, .deref], x.1 < 2 := by decide
+
+/-- every row-wise reader (any offset function, row length and row decoder: bmp palettes 1/4/8 bit, 15/16 bit, 24/32 bit, targa, pnm):
+    row `pos` of the full read is the row decoder applied to the `len` bytes at `off pos` -- what a scanline reader that seeks to
+    `off pos`, reads `len` bytes and runs the same row decoder puts in its buffer -/
+theorem C13_scanline_rowwise {α} (file : Bytes) (off : Nat → Nat) (len : Nat) (rowDec : Bytes → List α) (w h pos : Nat) (hp : pos < h) :
+    (readRows file off len rowDec Settings.full w h).rows[pos]? = some (sliceRow 0 w (rowDec (readAt file (off pos) len))) := by
+  simp only [readRows, readAt, Settings.full, Settings.dimX, Settings.dimY, if_true, Nat.add_zero]
+  rw [List.getElem?_map, List.getElem?_range hp]
+  simp only [Option.map_some]
+
+/-- a scanline reader that seeks to every row (`read(buffer, pos)` = decode the `len` bytes at `off pos`), with ANY skip function on the
+    stream position: any `*it` / `++it` sequence hands out read_image's rows (bmp palette and 15/16-bit scanline readers) -/
+theorem C13_skip_rows_read_image_seeking {α} (file : Bytes) (off : Nat → Nat) (len : Nat) (rowDec : Bytes → List α) (w h : Nat)
+    (skip : Nat → Nat → Nat) (p0 : Nat) (b0 : List α) (ops : List ItOp) :
+    ∀ x ∈ itRun ({ read := fun pos _ => (sliceRow 0 w (rowDec (readAt file (off pos) len)), off pos + len), skip := skip } : ScanReader Nat (List α))
+        (ItState.init b0 p0) ops, x.1 < h →
+      (readRows file off len rowDec Settings.full w h).rows[x.1]? = some x.2 := by
+  intro x hx hlt
+  rw [C13_skip_pattern_generic _ (fun pos => sliceRow 0 w (rowDec (readAt file (off pos) len))) (fun _ _ => True)
+        (fun _ _ _ => ⟨rfl, trivial⟩) (fun _ _ _ => trivial) p0 trivial, List.mem_map] at hx
+  obtain ⟨p, _, rfl⟩ := hx
+  exact C13_scanline_rowwise file off len rowDec w h p hlt
+
 /-! ### read_image_info reports the dimensions of the image read_image produces -/
 
 theorem C13_info_bmp {α} (f : PixFmt α) (file : Bytes) (img : Img α) (h : decodeBmp f file Settings.full = some img) :
